@@ -8,7 +8,9 @@ Conventions of the generated code
 * a Python `int` is an `Int`; a `bool` is a `Bool`; a `bytes` parameter that is only *read* is a `Buf`; a slice of
   it, a `bytearray` that is *built* (`insert`, `+`) and a `bytes` constant are `List Nat`; a `str` is a `List Char`;
   a `struct.unpack(">d")` double is its 64-bit pattern (`Nat`); md5 is the identity; a value whose Python type
-  depends on the path (`None` / int / float / bytes) is a `PyVal`;
+  depends on the path (`None` / int / float / bytes) is a `PyVal`; an attribute that is `None` on some paths and
+  a byte string on the others is an `Option`; a list built by `append` is a `List`; a member of one of the
+  `Enum([...])` tables of constants.py is the string that names it (what `Enum.__getattr__` returns);
 * a Python `float` only arises from `int / int` followed by `+ int`/`- int`; it is carried as the exact
   fraction `PyRat` (IEEE rounding is NOT modelled: the identification is exact whenever the operands
   are below 2^53 in absolute value, DESIGN.md §4.1 — the one arithmetic fact trusted here);
@@ -127,6 +129,17 @@ def pyUnpackBE (signed : Bool) (n : Nat) (data : List Nat) : Py Int :=
     if signed ∧ u ≥ 2 ^ (8 * n - 1) then .ok ((u : Int) - ((2 ^ (8 * n) : Nat) : Int)) else .ok (u : Nat)
   else .error .structError
 
+/-- little-endian value of a byte string -/
+def pyLE (l : List Nat) : Nat := l.foldr (fun x acc => x + 256 * acc) 0
+
+/-- `struct.unpack("<b" | "<B" | "<h" | "<H" | "<i" | "<I" | "<q" | "<Q", data)[0]`: as `pyUnpackBE`, least
+significant byte first -/
+def pyUnpackLE (signed : Bool) (n : Nat) (data : List Nat) : Py Int :=
+  if data.length = n then
+    let u := pyLE data
+    if signed ∧ u ≥ 2 ^ (8 * n - 1) then .ok ((u : Int) - ((2 ^ (8 * n) : Nat) : Int)) else .ok (u : Nat)
+  else .error .structError
+
 /-- `struct.unpack(">d", data)[0]`: the IEEE double is carried as its 64-bit pattern (the conversion is trusted) -/
 def pyUnpackDouble (data : List Nat) : Py Nat :=
   if data.length = 8 then .ok (pyBE data) else .error .structError
@@ -169,6 +182,14 @@ def pyLastByte (l : List Nat) : Py Int :=
 
 /-- `byte_array[:-1]` -/
 def pyDropLast (l : List Nat) : List Nat := l.dropLast
+
+/-! ### lists that are built (`x = []`, `x.append(e)`) and read by a literal index -/
+
+/-- `l[i]` for a literal `i ≥ 0`: `IndexError` past the end -/
+def pyListGet {α : Type} (l : List α) (i : Nat) : Py α :=
+  match l[i]? with
+  | some x => .ok x
+  | none => .error .indexError
 
 /-! ### strings -/
 
